@@ -95,6 +95,9 @@ func runPipeline(c pipeCase) (res pipeResult) {
 			n := 0
 			for m := range msgs {
 				n++
+				if c.SlowClientUs > 0 {
+					time.Sleep(time.Duration(c.SlowClientUs) * time.Microsecond)
+				}
 				ca.Aggregate(m)
 			}
 			mu.Lock()
